@@ -524,9 +524,17 @@ pub fn run_case_text(case: &Case, text: &str) -> RunOut {
                     nones[i] += 1;
                     false
                 }
-                _ => {
+                Item::Panic(_) => {
                     dead[i] = true;
                     false
+                }
+                _ => {
+                    if case.continue_after_error {
+                        true
+                    } else {
+                        dead[i] = true;
+                        false
+                    }
                 }
             };
             let step_no = hists[i].steps.len();
@@ -537,7 +545,8 @@ pub fn run_case_text(case: &Case, text: &str) -> RunOut {
                 item,
                 draws: draws(),
             });
-            if go_on && case.inspects(step_no) {
+            let yielded_row = matches!(hists[i].steps[step_no].item, Item::Row(_));
+            if go_on && yielded_row && case.inspects(step_no) {
                 let it = its[i].as_ref().unwrap();
                 let s = tick(&seq);
                 let r = guarded(|| it.vars());
